@@ -122,8 +122,8 @@ def main(argv):
         t0 = time.time()
         try:
             rc, out = sh(["cargo", "test", "--workspace", "--no-fail-fast", "--offline"], REPO, env={"CARGO_NET_OFFLINE": "true"}, timeout=1500)
-            if "error: could not compile" in out or re.search(r"^error(\[E\d+\])?:", out, re.M):
-                rec["status"] = "stillborn"
+            if "error: could not compile" in out or re.search(r"^error\[E\d+\]:", out, re.M):
+                rec["status"] = "stillborn"     # (cargo also prints `error: test failed, to rerun pass ...` when a TEST fails: that is killed_by_suite)
             elif rc != 0 or "FAILED" in out or "panicked" in out and "test result: FAILED" in out:
                 rec["status"] = "killed_by_suite"
             else:
